@@ -103,6 +103,53 @@ def tangent_checks(ctx, J, psi, where, kind):
         ctx.violation(f"{kind}:raises:{type(ex).__name__}", f"{type(ex).__name__}: {ex} at {where}", where)
 
 
+def purity(ctx):
+    """the charts are functions of the argument's VALUE: a buffer (or a view into one) that is updated in place between two calls must
+    give the result of the new value; arguments are not modified"""
+    from cardillo.math import rotations as rot
+
+    psis = [np.array(v, dtype=float) for v in ([0.3, -0.2, 0.5], [0.3, -0.2, 0.5], [1.0, 2.0, -1.5], [0.0, 0.0, 0.0], [3.0, 0.2, -0.4], [1e-7, 0, 0], [0.3, -0.2, 0.5])]
+    n = 0
+    vec_fns = [("Exp_SO3", rot.Exp_SO3), ("T_SO3", rot.T_SO3), ("T_SO3_inv", rot.T_SO3_inv), ("Exp_SO3_psi", rot.Exp_SO3_psi), ("T_SO3_psi", rot.T_SO3_psi)]
+    for name, f in vec_fns:
+        # expected values first (fresh arrays), then an uninterrupted sequence of calls on ONE buffer that is updated in place
+        fresh = [np.array(f(v.copy()), dtype=float) for v in psis]
+        buf = np.zeros(3)
+        for v, exp in zip(psis, fresh):
+            buf[:] = v
+            got = np.array(f(buf), dtype=float)
+            n += 1
+            if not np.array_equal(got, exp) or not np.array_equal(buf, v):
+                ctx.violation(f"purity:{name}", f"{name} on a buffer updated in place to {v.tolist()} returned the result of another value (or modified its argument)", {"psi": v.tolist()})
+                break
+    # screws: the rotational part is a view into the buffer
+    fresh = [np.array(rot.Exp_SE3(np.concatenate([[1.0, -2.0, 0.5], v]))) for v in psis]
+    h = np.zeros(6)
+    h[:3] = [1.0, -2.0, 0.5]
+    for v, exp in zip(psis, fresh):
+        h[3:] = v
+        got = np.array(rot.Exp_SE3(h))
+        n += 1
+        if not np.array_equal(got, exp):
+            ctx.violation("purity:Exp_SE3", f"Exp_SE3 on a buffer whose rotational part was updated in place to {v.tolist()} returned the result of another value", {"psi": v.tolist()})
+            break
+    # matrices
+    mats = [rot.Exp_SO3(v.copy()) for v in psis]
+    for name, f, shape, mk in (("Log_SO3", rot.Log_SO3, (3, 3), lambda M: M), ("Spurrier", rot.Spurrier, (3, 3), lambda M: M),
+                               ("Log_SE3", rot.Log_SE3, (4, 4), lambda M: rot.SE3(M, np.array([0.5, 1.0, -1.0])))):
+        args = [np.array(mk(M), dtype=float) for M in mats]
+        fresh = [np.array(f(a.copy()), dtype=float) for a in args]
+        buf = np.zeros(shape)
+        for a, exp, v in zip(args, fresh, psis):
+            buf[:, :] = a
+            got = np.array(f(buf), dtype=float)
+            n += 1
+            if not np.array_equal(got, exp) or not np.array_equal(buf, a):
+                ctx.violation(f"purity:{name}", f"{name} on a buffer updated in place returned the result of another value (or modified its argument) at psi={v.tolist()}", {"psi": v.tolist()})
+                break
+    return n
+
+
 def run(ctx):
     ctx.level = "exploration"
     gmax = 3 if ctx.thorough else 2
@@ -140,6 +187,7 @@ def run(ctx):
             if len(samples) < 3 and (e["half"] or counts[points] % 211 == 0):
                 samples.append({"P": st["P"], "s": e["s"], "admissible_spurrier_outputs": sorted(list(o) for o in e["outs"])})
     tangent_checks(ctx, J, np.zeros(3), {"psi": [0, 0, 0]}, "tangent")
+    counts["purity_histories"] = purity(ctx)
     ctx.log(f"[C02] lattice rotations {counts}; {J.n} float comparisons")
     ctx.coverage = {"states": states, "transitions": max(trans, 1), "traces_validated_against_impl": sum(counts.values()), "samples": samples,
                     "exhaustive": True, "counts": counts, "comparisons": J.n, "grid": f"-{gmax}..{gmax}",
